@@ -98,6 +98,11 @@ CHECKS = {
             'Each generated configuration (text/binary, write pattern with chunks up to 70 000 bytes around the 8 KiB buffer, buffering, destination absent/present with shorter/longer/equal/empty old content, overwrite, relative/absolute path, part_file name, context-manager or explicit API) is executed in a forked child whose os.* functions, builtins.open and the returned file objects are wrapped, giving an event trace (os.open, chmod, f.write, f.flush, os.fsync, f.close, rename/link/unlink ...). Then one child per crash point (before and after every event: exhaustive for the trace) re-runs the save and is killed there; before dying, every file whose content differs from its last fsync snapshot is reverted to it (unsynced data does not survive; directory operations are durable in order). After each crash the destination must be absent-as-before, exactly old, or exactly the complete new content; after a normal exit it must be the new content with no part file. The trace itself must show one publication from the same directory after last write -> flush -> fsync. 1600 configurations / ~27 000 crash points in quick.',
             'Trusts the interposition layer (vlib/fsio.py) to see every file operation boltons performs on the sandbox (os.* attribute calls, builtins.open, file-object methods); crashes inside system calls, kernel bugs and torn directory updates are out of scope.',
             'DESIGN.md section 2, C04'),
+    'C05': ('fault_enumeration',
+            'Hypothesis-generated save configurations; for each, every single OS-level fault (and for half of them every pair) is injected at each faultable event of the recorded trace in a forked child; oracle on exception, destination bytes and mode, directory listing and an immediate retry',
+            'Configurations cover overwrite, overwrite_part, rm_part_on_exc, text_mode, file_perms (None/600/640/444/000/755), process umask (5 values, set in the child), destination absent/present with a mode, foreign pre-existing part file, bodies that return, raise after k writes, write nothing, or let the destination appear mid-way (race for overwrite=False), and both API forms. The save runs once under the interposition layer; then an OSError (ENOSPC, EIO, EPERM, EACCES, EEXIST, EDQUOT) replaces the call at every faultable event - part-file creation, chmod, write, flush, fsync, close, link/rename - one run per event (exhaustive for the trace), and for half of the configurations one run per ordered pair of events of the faulted trace (second fault may hit the cleanup unlink). Not completed: the caller must see an exception, destination bytes and st_mode are unchanged (or those of the racing writer), no part file of this attempt remains with rm_part_on_exc, a foreign part file is untouched unless overwrite_part, and an immediate fault-free retry succeeds. Completed: new content, mode = file_perms / replaced file / 0666 & ~umask, no part file. ~900 configurations / ~12 000 fault runs in quick.',
+            'Faults replace the whole call (close closes, then raises); partial kernel effects and three or more simultaneous faults are out of scope; runs as root, so permission bits are compared, not enforced.',
+            'DESIGN.md section 2, C05'),
 }
 
 NOT_YET = 'check not built yet in this revision of /verif (work in progress; see DESIGN.md section 8)'
